@@ -6,6 +6,11 @@ memory layout.  (Heap-history independence and whole-API purity are validated by
 Helper lemmas: `Proofs/C08.lean`.
 -/
 import Mahotas.Proofs.C08
+import Mahotas.Proofs.C08Kernels
+import Mahotas.Proofs.C08Defined
+import Mahotas.Proofs.C05Nd
+import Mahotas.Proofs.C13BBox
+import Mathlib.Data.List.Basic
 import Mahotas.Generated.Normalise
 import Mahotas.Generated.CopyGuards
 open Mahotas Mahotas.C08
@@ -17,6 +22,9 @@ C-order position -/
 def SameLogical {α} (m₁ : Int → α) (v₁ : View) (m₂ : Int → α) (v₂ : View) : Prop :=
   v₁.shape = v₂.shape ∧
   ∀ k, k < shapeSize v₁.shape → m₁ (v₁.addr (unravel v₁.shape k)) = m₂ (v₂.addr (unravel v₂.shape k))
+
+theorem SameLogical.toImg_eq {α : Type} {m₁ m₂ : Int → α} {v₁ v₂ : View} (h : SameLogical m₁ v₁ m₂ v₂) :
+    toImg m₁ v₁ = toImg m₂ v₂ := toImg_congr m₁ m₂ v₁ v₂ h.1 h.2
 
 end Mahotas.C08
 
@@ -194,6 +202,378 @@ theorem C08_inplace_kernels_only_when_asked :
     (∀ calls, inplaceTarget true calls = .user) := by
   refine ⟨by decide, by decide +kernel, fun calls => by simp [inplaceTarget]⟩
 
+
+/-! ## Round 2 — T2 per kernel: `kernel_layout_free`, and T3: `defined_everywhere`
+
+The view-level kernels of `Model/C08.lean` (`erodeView`, `dilateView`, `locView`, `convolveView`, `rankView`,
+`meanView`, `tmView`, `bordersView`, `hitmissView`, `cwatershedView`, `bboxView`, `comView`, `lineVals`) read their
+array arguments only through the transliterated accessors: the array iterator, `at_flat`, and the offset table of a
+`filter_iterator` multiplied with the strides of the array it is applied to. -/
+
+/-- **T1, filter iterator over a view (F6 with `astrides` + F7).** For every well-formed view `vA` with at least
+one element per axis, every filter view `vF` of the same rank with at least one element per axis (any layout when
+`compress`, C-contiguous when the raw data pointer is indexed), every border mode, and every loop iteration
+`i < size`: the pairs `(retrieve(iter, j, ·), filter[j])` the inner loop of a neighbourhood kernel sees are exactly
+the *logical* neighbours: footprint elements in C order, each with the logical element at
+`fix(mode, unravel i + k − ⌊fshape/2⌋)` (`none` when flagged) and the logical filter value — whatever the
+strides of either array. -/
+theorem C08_filter_reads_logical_neighbours {α : Type} (isNZ : α → Bool) (mA : Int → α) (vA : View) (mF : Int → α)
+    (vF : View) (m : Mode) (compress : Bool) (h : FilterArgs vA vF compress) (d : α) (i : Nat)
+    (hi : i < shapeSize vA.shape) :
+    (mkFiltV isNZ vA mF vF m compress).neigh d mA (iterPtr vA i) i =
+      logicalNeigh m (toImg mA vA) vF.shape (logical mF vF) (if compress then isNZ else fun _ => true) d
+        (unravelI vA.shape i) :=
+  neigh_logical isNZ mA vA mF vF h.wfA h.wfF h.posA h.posF h.rank m compress h.raw d i hi
+
+/-- **erode is layout-free.** `erode<T>` (iterator over the input, filter offsets built from the *input's* strides,
+empty element filled with the maximum) returns the same output for any two layouts of the same logical image and
+the same logical structuring element (for non-bool dtypes `Bc` reaches the kernel C-contiguous:
+`get_structuring_elem` copies a non-contiguous one). -/
+theorem C08_erode_layout_free (dt : DT) (mA₁ mA₂ mB₁ mB₂ : Int → Int) (vA₁ vA₂ vB₁ vB₂ : View)
+    (h₁ : FilterArgs vA₁ vB₁ dt.isBool) (h₂ : FilterArgs vA₂ vB₂ dt.isBool)
+    (hA : SameLogical mA₁ vA₁ mA₂ vA₂) (hB : SameLogical mB₁ vB₁ mB₂ vB₂) :
+    erodeView dt mA₁ vA₁ mB₁ vB₁ = erodeView dt mA₂ vA₂ mB₂ vB₂ := by
+  have eA := hA.toImg_eq
+  have eB := hB.toImg_eq
+  unfold erodeView
+  simp only
+  rw [size_layout_free _ .nearest dt.isBool mB₁ mB₂ vA₁ vA₂ vB₁ vB₂ h₁.wfF h₂.wfF eB 0, ← hA.1]
+  split
+  · rfl
+  · apply pixelLoop_congr
+    intro i hi
+    rw [neigh_layout_free _ .nearest dt.isBool 0 mA₁ mA₂ mB₁ mB₂ vA₁ vA₂ vB₁ vB₂ h₁ h₂ eA eB i hi]
+
+/-- **locmin_max (as repaired: filter built from the input array) is layout-free.** -/
+theorem C08_locminmax_layout_free (isMin : Bool) (mA₁ mA₂ mB₁ mB₂ : Int → Int) (vA₁ vA₂ vB₁ vB₂ : View)
+    (h₁ : FilterArgs vA₁ vB₁ true) (h₂ : FilterArgs vA₂ vB₂ true)
+    (hA : SameLogical mA₁ vA₁ mA₂ vA₂) (hB : SameLogical mB₁ vB₁ mB₂ vB₂) :
+    locView isMin mA₁ vA₁ mB₁ vB₁ = locView isMin mA₂ vA₂ mB₂ vB₂ := by
+  have eA := hA.toImg_eq
+  have eB := hB.toImg_eq
+  unfold locView
+  simp only
+  rw [← hA.1]
+  apply markLoop_congr
+  intro i hi
+  rw [neigh_layout_free _ .nearest true 0 mA₁ mA₂ mB₁ mB₂ vA₁ vA₂ vB₁ vB₂ h₁ h₂ eA eB i hi,
+    readIter_layout_free mA₁ mA₂ vA₁ vA₂ h₁.wfA h₂.wfA eA i hi 0]
+
+/-- **convolve is layout-free** (any arithmetic: the driver instantiates it at exact integers, C06 at `Float`). -/
+theorem C08_convolve_layout_free {α : Type} [Add α] [Mul α] (zero : α) (isZero : α → Bool) (cast : α → α) (m : Mode)
+    (mA₁ mA₂ mW₁ mW₂ : Int → α) (vA₁ vA₂ vW₁ vW₂ : View)
+    (h₁ : FilterArgs vA₁ vW₁ true) (h₂ : FilterArgs vA₂ vW₂ true)
+    (hA : SameLogical mA₁ vA₁ mA₂ vA₂) (hW : SameLogical mW₁ vW₁ mW₂ vW₂) :
+    convolveView zero isZero cast m mA₁ vA₁ mW₁ vW₁ = convolveView zero isZero cast m mA₂ vA₂ mW₂ vW₂ := by
+  have eA := hA.toImg_eq
+  have eW := hW.toImg_eq
+  unfold convolveView
+  simp only
+  rw [← hA.1]
+  apply pixelLoop_congr
+  intro i hi
+  rw [neigh_layout_free _ m true zero mA₁ mA₂ mW₁ mW₂ vA₁ vA₂ vW₁ vW₂ h₁ h₂ eA eW i hi]
+
+/-- **rank_filter (hence median_filter) is layout-free.** -/
+theorem C08_rank_filter_layout_free (m : Mode) (rank : Int) (mA₁ mA₂ mB₁ mB₂ : Int → Int) (vA₁ vA₂ vB₁ vB₂ : View)
+    (h₁ : FilterArgs vA₁ vB₁ true) (h₂ : FilterArgs vA₂ vB₂ true)
+    (hA : SameLogical mA₁ vA₁ mA₂ vA₂) (hB : SameLogical mB₁ vB₁ mB₂ vB₂) :
+    rankView m rank mA₁ vA₁ mB₁ vB₁ = rankView m rank mA₂ vA₂ mB₂ vB₂ := by
+  have eA := hA.toImg_eq
+  have eB := hB.toImg_eq
+  unfold rankView
+  simp only
+  rw [size_layout_free _ m true mB₁ mB₂ vA₁ vA₂ vB₁ vB₂ h₁.wfF h₂.wfF eB 0, ← hA.1]
+  split
+  · rfl
+  · congr 1
+    apply pixelLoop_congr
+    intro i hi
+    rw [neigh_layout_free _ m true 0 mA₁ mA₂ mB₁ mB₂ vA₁ vA₂ vB₁ vB₂ h₁ h₂ eA eB i hi]
+
+/-- **mean_filter is layout-free.** -/
+theorem C08_mean_filter_layout_free (m : Mode) (mA₁ mA₂ mB₁ mB₂ : Int → Int) (vA₁ vA₂ vB₁ vB₂ : View)
+    (h₁ : FilterArgs vA₁ vB₁ true) (h₂ : FilterArgs vA₂ vB₂ true)
+    (hA : SameLogical mA₁ vA₁ mA₂ vA₂) (hB : SameLogical mB₁ vB₁ mB₂ vB₂) :
+    meanView m mA₁ vA₁ mB₁ vB₁ = meanView m mA₂ vA₂ mB₂ vB₂ := by
+  have eA := hA.toImg_eq
+  have eB := hB.toImg_eq
+  unfold meanView
+  simp only
+  rw [← hA.1]
+  apply pixelLoop_congr
+  intro i hi
+  rw [neigh_layout_free _ m true 0 mA₁ mA₂ mB₁ mB₂ vA₁ vA₂ vB₁ vB₂ h₁ h₂ eA eB i hi]
+
+/-- **template_match is layout-free in the image**, and in the template once the wrapper has made it C-contiguous
+(`compress = false`: the kernel indexes the template's raw data pointer — the defect 6f6fc49 repaired). -/
+theorem C08_template_match_layout_free (m : Mode) (mA₁ mA₂ mT₁ mT₂ : Int → Int) (vA₁ vA₂ vT₁ vT₂ : View)
+    (h₁ : FilterArgs vA₁ vT₁ false) (h₂ : FilterArgs vA₂ vT₂ false)
+    (hA : SameLogical mA₁ vA₁ mA₂ vA₂) (hT : SameLogical mT₁ vT₁ mT₂ vT₂) :
+    tmView m mA₁ vA₁ mT₁ vT₁ = tmView m mA₂ vA₂ mT₂ vT₂ := by
+  have eA := hA.toImg_eq
+  have eT := hT.toImg_eq
+  unfold tmView
+  simp only
+  rw [← hA.1]
+  apply pixelLoop_congr
+  intro i hi
+  rw [neigh_layout_free _ m false 0 mA₁ mA₂ mT₁ mT₂ vA₁ vA₂ vT₁ vT₂ h₁ h₂ eA eT i hi]
+
+/-- **labeled.borders is layout-free.** -/
+theorem C08_borders_layout_free (m : Mode) (mA₁ mA₂ mB₁ mB₂ : Int → Int) (vA₁ vA₂ vB₁ vB₂ : View)
+    (h₁ : FilterArgs vA₁ vB₁ true) (h₂ : FilterArgs vA₂ vB₂ true)
+    (hA : SameLogical mA₁ vA₁ mA₂ vA₂) (hB : SameLogical mB₁ vB₁ mB₂ vB₂) :
+    bordersView m mA₁ vA₁ mB₁ vB₁ = bordersView m mA₂ vA₂ mB₂ vB₂ := by
+  have eA := hA.toImg_eq
+  have eB := hB.toImg_eq
+  unfold bordersView
+  simp only
+  rw [← hA.1]
+  apply markLoop_congr
+  intro i hi
+  rw [neigh_layout_free _ m true 0 mA₁ mA₂ mB₁ mB₂ vA₁ vA₂ vB₁ vB₂ h₁ h₂ eA eB i hi,
+    readIter_layout_free mA₁ mA₂ vA₁ vA₂ h₁.wfA h₂.wfA eA i hi 0]
+
+/-- **cwatershed is layout-free.** The surface and the markers are only ever read as `at_flat(i)`, `i < N` (F8), the
+structuring element through its iterator (F7); everything else is flat-index arithmetic on the C-contiguous outputs.
+The view-level kernel *is* the C04 model run on the logical arrays. -/
+theorem C08_cwatershed_layout_free (mS₁ mS₂ mM₁ mM₂ mB₁ mB₂ : Int → Int) (vS₁ vS₂ vM₁ vM₂ vB₁ vB₂ : View)
+    (wS₁ : vS₁.WF) (wS₂ : vS₂.WF) (wM₁ : vM₁.WF) (wM₂ : vM₂.WF) (wB₁ : vB₁.WF) (wB₂ : vB₂.WF)
+    (hS : SameLogical mS₁ vS₁ mS₂ vS₂) (hM : SameLogical mM₁ vM₁ mM₂ vM₂) (hB : SameLogical mB₁ vB₁ mB₂ vB₂) :
+    cwatershedView mS₁ vS₁ mM₁ vM₁ mB₁ vB₁ =
+      C04.cwatershedModel (toImg mS₁ vS₁) (toImg mM₁ vM₁) vB₁.shape (logical mB₁ vB₁).toArray ∧
+    cwatershedView mS₁ vS₁ mM₁ vM₁ mB₁ vB₁ = cwatershedView mS₂ vS₂ mM₂ vM₂ mB₂ vB₂ := by
+  unfold cwatershedView
+  rw [flatImg_eq _ _ wS₁, flatImg_eq _ _ wM₁, flatImg_eq _ _ wS₂, flatImg_eq _ _ wM₂,
+    filtVals_eq _ _ wB₁, filtVals_eq _ _ wB₂, hS.toImg_eq, hM.toImg_eq,
+    (logical_eq_of_toImg _ _ _ _ hB.toImg_eq).1, hB.1]
+  exact ⟨rfl, rfl⟩
+
+/-- **bbox is layout-free, both paths.** The generic `bbox<T>` (value *and* `position()` of the array iterator) and
+the raw-pointer walk `carray2_bbox` taken for 2-D C-arrays both compute `C13.bboxGeneric` of the logical array. -/
+theorem C08_bbox_layout_free (mA : Int → Int) (vA : View) (wf : vA.WF) :
+    bboxView mA vA = C13.bboxGeneric vA.shape (logical mA vA) ∧
+    ∀ (mA₂ : Int → Int) (vA₂ : View), vA₂.WF → SameLogical mA vA mA₂ vA₂ → bboxView mA vA = bboxView mA₂ vA₂ := by
+  have gen : ∀ (m : Int → Int) (v : View), v.WF → bboxGenericView m v = C13.bboxGeneric v.shape (logical m v) := by
+    intro m v w
+    unfold bboxGenericView C13.bboxGeneric
+    rw [logical_length]
+    congr 1
+    apply List.foldl_ext
+    intro ext i hi
+    have hi' : i < shapeSize v.shape := List.mem_range.1 hi
+    rw [position_eq v w i hi']
+    have : (logical m v).getD i 0 = readIter m v i := by
+      rw [← (C08_iterator_sequence_is_logical m v w).1]
+      simp [List.getD_eq_getElem?_getD, List.getElem?_map, List.getElem?_range hi']
+    rw [this]
+  have all : ∀ (m : Int → Int) (v : View), v.WF → bboxView m v = C13.bboxGeneric v.shape (logical m v) := by
+    intro m v w
+    unfold bboxView
+    split
+    · rename_i N0 N1 hc hs
+      have hsz : shapeSize v.shape = N0 * N1 := by rw [hs]; simp [shapeSize]
+      have hraw : ((List.range (N0 * N1)).map fun (k : Nat) => m (v.base + (k : Int))) = logical m v := by
+        unfold logical
+        rw [hsz]
+        apply List.map_congr_left
+        intro k hk
+        unfold View.addr
+        rw [w.carray hc, dot_cStrides _ _ (by rw [hsz]; exact List.mem_range.1 hk)]
+      rw [hraw, hs]
+      exact C13.bboxFast_eq_generic N0 N1 _ (by rw [logical_length, hsz])
+    · exact gen m v w
+  refine ⟨all mA vA wf, fun mA₂ vA₂ wf₂ h => ?_⟩
+  rw [all mA vA wf, all mA₂ vA₂ wf₂, (logical_eq_of_toImg _ _ _ _ h.toImg_eq).1, h.1]
+
+/-- **center_of_mass is layout-free**: the image is read as `*pos` of its iterator. -/
+theorem C08_center_of_mass_layout_free {α : Type} (ops : C13.NumOps α) (mA₁ mA₂ : Int → α) (vA₁ vA₂ : View)
+    (w₁ : vA₁.WF) (w₂ : vA₂.WF) (labels : List Int) (h : SameLogical mA₁ vA₁ mA₂ vA₂) :
+    comView ops mA₁ vA₁ labels = C13.comModelG ops vA₁.shape (logical mA₁ vA₁) labels ∧
+    comView ops mA₁ vA₁ labels = comView ops mA₂ vA₂ labels := by
+  unfold comView
+  rw [(C08_iterator_sequence_is_logical mA₁ vA₁ w₁).1, (C08_iterator_sequence_is_logical mA₂ vA₂ w₂).1,
+    (logical_eq_of_toImg _ _ _ _ h.toImg_eq).1, h.1]
+  exact ⟨rfl, rfl⟩
+
+/-- **dilate is layout-free.** `dilate<T>` reads the input only as `*iter` (F7); its filter iterator is built on the
+output, which `_get_output` makes C-contiguous, and the structuring element is read through its own iterator (bool)
+or arrives C-contiguous (other dtypes). -/
+theorem C08_dilate_layout_free (dt : DT) (mA₁ mA₂ mB₁ mB₂ : Int → Int) (vA₁ vA₂ vB₁ vB₂ : View)
+    (wA₁ : vA₁.WF) (wA₂ : vA₂.WF) (wB₁ : vB₁.WF) (wB₂ : vB₂.WF)
+    (raw₁ : dt.isBool = false → vB₁.strides = cStrides vB₁.shape)
+    (raw₂ : dt.isBool = false → vB₂.strides = cStrides vB₂.shape)
+    (hA : SameLogical mA₁ vA₁ mA₂ vA₂) (hB : SameLogical mB₁ vB₁ mB₂ vB₂) :
+    dilateView dt mA₁ vA₁ mB₁ vB₁ = dilateView dt mA₂ vA₂ mB₂ vB₂ := by
+  have eA := hA.toImg_eq
+  have eB := hB.toImg_eq
+  have hfv : mkFiltV (fun x => x != 0) (outView vA₁.shape) mB₁ vB₁ .nearest dt.isBool =
+      mkFiltV (fun x => x != 0) (outView vA₁.shape) mB₂ vB₂ .nearest dt.isBool := by
+    obtain ⟨hl, hs⟩ := logical_eq_of_toImg _ _ _ _ eB
+    unfold mkFiltV
+    simp only [filtVals_eq _ _ wB₁, filtVals_eq _ _ wB₂, hl, hs]
+    cases hb : dt.isBool with
+    | true => rfl
+    | false =>
+      simp only [Bool.false_eq_true, if_false]
+      have r : ∀ (m : Int → Int) (v : View), v.strides = cStrides v.shape →
+          ((List.range (shapeSize v.shape)).map fun (j : Nat) => m (v.base + (j : Int))) = logical m v := by
+        intro m v hv
+        unfold logical
+        apply List.map_congr_left
+        intro k hk
+        unfold View.addr
+        rw [hv, dot_cStrides _ _ (List.mem_range.1 hk)]
+      have r1 := r mB₁ vB₁ (raw₁ hb)
+      have r2 := r mB₂ vB₂ (raw₂ hb)
+      rw [hs] at r1
+      rw [r1, r2, hl]
+  unfold dilateView
+  simp only
+  rw [← hA.1, hfv]
+  split
+  · rfl
+  · apply List.foldl_ext
+    intro res i hi
+    rw [readIter_layout_free mA₁ mA₂ vA₁ vA₂ wA₁ wA₂ eA i (List.mem_range.1 hi) 0]
+
+/-- **hitmiss is layout-free (partial).** `hitmiss<T>` reads its input as `input.at_flat(i + delta)` (F8), the template
+through its iterator and `position()` (F7), and computes `delta` and its loop control with `pos_to_flat` /
+`flat_to_pos`, which depend on the dimensions only. *Gap:* that every evaluated `i + delta` is a valid flat index is
+taken as a hypothesis here (it is C10's `C10_hitmiss_in_bounds`, proved there for C10's own transliteration of the
+loop, not re-derived for this value-level one). -/
+theorem C08_hitmiss_layout_free_partial (mA₁ mA₂ mB₁ mB₂ : Int → Int) (vA₁ vA₂ vB₁ vB₂ : View)
+    (wA₁ : vA₁.WF) (wA₂ : vA₂.WF) (wB₁ : vB₁.WF) (wB₂ : vB₂.WF)
+    (hA : SameLogical mA₁ vA₁ mA₂ vA₂) (hB : SameLogical mB₁ vB₁ mB₂ vB₂)
+    (hsafe : ∀ i, i < shapeSize vA₁.shape →
+      C14.hmEvaluated vA₁.shape vB₁.shape (vA₁.flatToPos (i : Int)) = true →
+      ∀ e ∈ hmTable vA₁ mB₁ vB₁, ((i : Int) + e.1).toNat < shapeSize vA₁.shape) :
+    hitmissView mA₁ vA₁ mB₁ vB₁ = hitmissView mA₂ vA₂ mB₂ vB₂ := by
+  have eA := hA.toImg_eq
+  have eB := hB.toImg_eq
+  have htab : hmTable vA₁ mB₁ vB₁ = hmTable vA₂ mB₂ vB₂ := by
+    unfold hmTable
+    rw [← hB.1]
+    apply List.filterMap_congr
+    intro j hj
+    have hj' : j < shapeSize vB₁.shape := List.mem_range.1 hj
+    have hp := position_eq vB₁ wB₁ j hj'
+    have hp2 := position_eq vB₂ wB₂ j (hB.1 ▸ hj')
+    rw [← hB.1] at hp2
+    simp only [readIter_layout_free mB₁ mB₂ vB₁ vB₂ wB₁ wB₂ eB j hj' 0, hp, hp2, View.posToFlat, hA.1]
+  have hf2p : ∀ i : Int, vA₁.flatToPos i = vA₂.flatToPos i := by
+    intro i; simp only [View.flatToPos, hA.1]
+  unfold hitmissView
+  simp only
+  rw [← hA.1]
+  apply pixelLoop_congr
+  intro i hi
+  by_cases hev : C14.hmEvaluated vA₁.shape vB₁.shape (vA₁.flatToPos (i : Int)) = true
+  · have hev2 : C14.hmEvaluated vA₁.shape vB₂.shape (vA₂.flatToPos (i : Int)) = true := by
+      rw [← hf2p, ← hB.1]; exact hev
+    rw [if_pos hev, if_pos hev2, ← htab]
+    have : (hmTable vA₁ mB₁ vB₁).all (fun e => readAtFlat mA₁ vA₁ ((i : Int) + e.1).toNat == e.2) =
+        (hmTable vA₁ mB₁ vB₁).all (fun e => readAtFlat mA₂ vA₂ ((i : Int) + e.1).toNat == e.2) := by
+      have allc : ∀ (l : List (Int × Int)) (p q : Int × Int → Bool), (∀ x ∈ l, p x = q x) →
+          l.all p = l.all q := by
+        intro l p q h
+        induction l with
+        | nil => rfl
+        | cons a t ih =>
+          simp only [List.all_cons]
+          rw [h a (by simp), ih (fun x hx => h x (by simp [hx]))]
+      apply allc
+      intro e he
+      have hlt := hsafe i hi hev e he
+      rw [readAtFlat_logical mA₁ vA₁ wA₁ _ hlt 0, readAtFlat_logical mA₂ vA₂ wA₂ _ (hA.1 ▸ hlt) 0, eA, hA.1]
+    rw [this]
+  · have hev2 : ¬ C14.hmEvaluated vA₁.shape vB₂.shape (vA₂.flatToPos (i : Int)) = true := by
+      rw [← hf2p, ← hB.1]; exact hev
+    rw [if_neg hev, if_neg hev2]
+
+/-- **distance: every line is addressed by its own stride.** `distance.py` (as repaired) runs the exact 1-D pass on
+`(1, n)` views `lines[idx][None, :]` of the work array: the `t`-th element `_distance.dt` reads from the line
+through `p` along `axis` (`f[t*stride]`) is the logical element at `p` with coordinate `axis` replaced by `t`, for all
+strides of the array. -/
+theorem C08_distance_lines_layout_free {α : Type} (mem : Int → α) (v : View) (wf : v.WF) (axis : Nat)
+    (p : List Nat) (hp : inside v.shape (p.map Int.ofNat) = true) (ha : axis < v.shape.length) (d : α) :
+    lineVals mem v axis p =
+      (List.range (v.shape.getD axis 0)).map fun (t : Nat) =>
+        (toImg mem v).getD ((p.map Int.ofNat).set axis (t : Int)) d := by
+  have hpl : p.length = v.shape.length := by simpa using C01.inside_length hp
+  unfold lineVals
+  apply List.map_congr_left
+  intro t ht
+  have ht' : t < v.shape.getD axis 0 := List.mem_range.1 ht
+  rw [lineView_addr v axis p t (by rw [hpl, wf.len]) (by rw [hpl]; exact ha)]
+  have hin := C05.inside_set v.shape (p.map Int.ofNat) axis (t : Int) hp (by omega) (by exact_mod_cast ht')
+  rw [toImg_getD mem v _ d hin]
+  unfold View.addr
+  rw [← elemOffset_ofNat, List.map_set]
+  rfl
+
+/-- **F15, erode (as repaired).** Started on an output nobody has written (`none` everywhere), `erode<T>` leaves no
+cell unwritten — also for an empty structuring element, where it fills the output with the dtype maximum. -/
+theorem C08_defined_everywhere_erode (dt : DT) (mA : Int → Int) (vA : View) (mB : Int → Int) (vB : View) :
+    (erodeView dt mA vA mB vB).size = shapeSize vA.shape ∧ AllSome (erodeView dt mA vA mB vB) := by
+  unfold erodeView
+  simp only
+  split <;> exact pixelLoop_defined _ _
+
+/-- **F15, dilate.** `std::fill` writes every cell before the scatter, and the scatter only overwrites. -/
+theorem C08_defined_everywhere_dilate (dt : DT) (mA : Int → Int) (vA : View) (mB : Int → Int) (vB : View) :
+    (dilateView dt mA vA mB vB).size = shapeSize vA.shape ∧ AllSome (dilateView dt mA vA mB vB) :=
+  dilateView_defined dt mA vA mB vB
+
+/-- **F15, the one-write-per-pixel kernels**: locmin_max and borders (on the zero-filled output they are handed),
+convolve, mean_filter, template_match, hitmiss write every cell of their output. -/
+theorem C08_defined_everywhere_pixel_kernels (m : Mode) (isMin : Bool) (mA : Int → Int) (vA : View) (mB : Int → Int)
+    (vB : View) :
+    AllSome (locView isMin mA vA mB vB) ∧ AllSome (bordersView m mA vA mB vB) ∧
+    AllSome (convolveView 0 (fun x => x == 0) id m mA vA mB vB) ∧ AllSome (meanView m mA vA mB vB) ∧
+    AllSome (tmView m mA vA mB vB) ∧ AllSome (hitmissView mA vA mB vB) :=
+  ⟨(markLoop_defined _ _).2, (markLoop_defined _ _).2, (pixelLoop_defined _ _).2, (pixelLoop_defined _ _).2,
+   (pixelLoop_defined _ _).2, (pixelLoop_defined _ _).2⟩
+
+/-- **F15, cwatershed (as repaired: both outputs zero-filled).** The label and the lines output keep the size of
+the zero-filled arrays the kernel starts from and are only overwritten in place: a pixel no marker reaches holds the
+zero of the fill, never stale memory. -/
+theorem C08_defined_everywhere_cwatershed (mS : Int → Int) (vS : View) (mM : Int → Int) (vM : View)
+    (mB : Int → Int) (vB : View) :
+    (cwatershedView mS vS mM vM mB vB).res.size = shapeSize vS.shape ∧
+    (cwatershedView mS vS mM vM mB vB).lines.size = shapeSize vS.shape :=
+  modelRun_sized _ _ _ _ _ (modelInit_sized _ _)
+
+/-- **F15, rank_filter (partial).** With `rank` outside `[0, N2)` the native kernel returns at once and *no* cell is
+written (the defect b48a666 repaired by a guard in the wrapper); inside the range every pixel `i` receives
+`nth_element`'s answer for the gathered samples. *Gap:* that this answer exists (`currank <` number of samples, which
+can only fail in `ignore` mode with a footprint that misses the image entirely) is not proved. -/
+theorem C08_defined_everywhere_rank_filter_partial (m : Mode) (rank : Int) (mA : Int → Int) (vA : View)
+    (mB : Int → Int) (vB : View) :
+    let fv := mkFiltV (fun x => x != 0) vA mB vB m true
+    ((rank < 0 ∨ rank ≥ (fv.fi.size : Int)) →
+      rankView m rank mA vA mB vB = Array.replicate (shapeSize vA.shape) none) ∧
+    (¬ (rank < 0 ∨ rank ≥ (fv.fi.size : Int)) →
+      (rankView m rank mA vA mB vB).size = shapeSize vA.shape ∧
+      ∀ i, i < shapeSize vA.shape →
+        (rankView m rank mA vA mB vB).getD i none =
+          C07.nthElement (gatherInner m (fv.neigh 0 mA (iterPtr vA i) i))
+            (C07.curRank (gatherInner m (fv.neigh 0 mA (iterPtr vA i) i)).length fv.fi.size rank.toNat)) := by
+  intro fv
+  constructor
+  · intro h
+    unfold rankView
+    simp only
+    rw [if_pos h]
+  · intro h
+    unfold rankView
+    simp only
+    rw [if_neg h, pixelLoop_eq]
+    refine ⟨by simp, fun i hi => ?_⟩
+    simp [Array.getD_eq_getD_getElem?, hi]
+    rfl
+
 /-! non-vacuity: a reversed, transposed, gapped 3×2×2 view (negative and non-monotone strides, offset
     base) is well-formed; the iterator, `at_flat` and the address map agree on all 12 elements, and it
     presents the same logical array as a C-contiguous view of a permuted memory. -/
@@ -204,3 +584,22 @@ example :
     (List.range 12).map v.atFlat = [10, 4, 22, 16, 8, 2, 20, 14, 6, 0, 18, 12] ∧
     (List.range 12).map (fun k => v.addr (unravel v.shape k)) = [10, 4, 22, 16, 8, 2, 20, 14, 6, 0, 18, 12] := by
   decide
+
+/-! non-vacuity (Round 2): a Fortran-ordered and a C-contiguous 2×2 view of the same logical image `[[5,9],[3,1]]`, a 1×2
+    structuring element: the hypotheses of `C08_erode_layout_free` hold (compress = false), and the two runs of the
+    view-level `erode<uint8>` agree cell by cell and leave no cell unwritten. -/
+namespace Mahotas.C08.Example
+def memF : Int → Int := fun a => [5, 3, 9, 1].getD a.toNat 0
+def memC : Int → Int := fun a => [5, 9, 3, 1].getD a.toNat 0
+def memB : Int → Int := fun a => [1, 1].getD a.toNat 0
+def vF : View := { base := 0, shape := [2, 2], strides := [1, 2] }
+def vC : View := { base := 0, shape := [2, 2], strides := [2, 1], carray := true }
+def vB : View := { base := 0, shape := [1, 2], strides := [2, 1], carray := true }
+
+example : FilterArgs vF vB false ∧ FilterArgs vC vB false ∧ SameLogical memF vF memC vC ∧
+    erodeView (dtU 8) memF vF memB vB = erodeView (dtU 8) memC vC memB vB ∧
+    (erodeView (dtU 8) memF vF memB vB).toList = [some 4, some 4, some 2, some 0] := by
+  refine ⟨⟨⟨rfl, by decide⟩, ⟨rfl, by decide⟩, by (unfold View.Pos; decide), by (unfold View.Pos; decide), rfl, fun _ => rfl⟩,
+          ⟨⟨rfl, by decide⟩, ⟨rfl, by decide⟩, by (unfold View.Pos; decide), by (unfold View.Pos; decide), rfl, fun _ => rfl⟩,
+          ⟨rfl, by decide⟩, by decide, by decide⟩
+end Mahotas.C08.Example
